@@ -118,10 +118,33 @@ def cover_inputs(case, rng, n, maxlen=24):
     return out
 
 
+SCRIPT_MODES = ("none", "random", "random", "random", "rejectall", "rejectfirst")
+
+
+def make_script(rng, c, mode, maxops):
+    rej = c.cfg.get("reject") and c.cfg.get("reject") != "no"
+    if mode == "none": return []
+    if mode == "rejectall" and rej: return [("R", 0)] * 60
+    if mode == "rejectfirst" and rej:
+        k = rng.randint(1, 4)
+        return [("R", 0)] * k + [("-", 0)] + traces.gen_script(rng, c, maxops=maxops)
+    return traces.gen_script(rng, c, maxops=maxops)
+
+
+def script_features(cfg):
+    f = lambda k, d=False: bool(cfg.get(k, d)) and cfg.get(k, d) != "no"
+    return (f("reject"), f("yymore"), f("stack", True), f("array"), f("yylineno", True))
+
+
 def trace_unit(run, cases, rng, per_case=12, tag="traces", scripts=True, bufsizes=(0,), scheds=None,
-               maxops=24, chunk=400, job_filter=None, inputs_fn=None, strictread=False):
-    """cases: product.Case list with .gen (built scanners).  Records and validates
-    per_case executions each."""
+               maxops=24, chunk=600, job_filter=None, inputs_fn=None, strictread=False, full_cover=False,
+               script_modes=SCRIPT_MODES):
+    """cases: product.Case list with .gen (built scanners).  Runs per_case scripted
+    executions of each, and has TLC decide whether they are behaviours of the
+    specification.  Scanners generated from the same rule set with the same
+    script-relevant options get the same jobs; only the first one's executions
+    and those of the others that differ from it (ignoring reads) go to TLC -
+    an execution equal to an accepted one is accepted."""
     wd = os.path.join(run.work, tag); os.makedirs(wd, exist_ok=True)
     live = [c for c in cases if c.gen and c.T is not None and not c.dangerous and c.status in ("ok",)]
     if not live:
@@ -130,53 +153,77 @@ def trace_unit(run, cases, rng, per_case=12, tag="traces", scripts=True, bufsize
     with open(casefile, "w") as f:
         for c in live:
             f.write(json.dumps({"id": c.id, "src": c.src}) + "\n")
-    jobs = []
+    groups = {}
     for ci, c in enumerate(live):
         c.alphabet = traces.alphabet_of(c.src)
-        ins = (inputs_fn or cover_inputs)(c, rng, per_case)
-        for ji, inp in enumerate(ins):
-            sched = rng.choice(scheds) if scheds else rng.choice([[], [1], [1, 2], [3], [2, 1, 4], [64]])
-            bs = rng.choice(bufsizes)
-            ops = traces.gen_script(rng, c, maxops=maxops) if scripts and rng.random() < 0.8 else []
-            job = dict(input=inp, sched=sched, ops=ops, bufsize=bs,
-                       initsc=rng.randrange(len(c.src["scs"])) if rng.random() < 0.4 else 0,
-                       reset=dict(traces.reset_fields(c, ci + 1, strictread=strictread), cid=c.id))
-            if job_filter: job = job_filter(c, job)
-            if job: jobs.append((c, job, os.path.join(wd, "t-%d-%d.ndjson" % (ci, ji))))
+        c._ci = ci
+        key = json.dumps([c.src, script_features(c.cfg)], sort_keys=True)
+        groups.setdefault(key, []).append(c)
+    work = []
+    for key, grp in groups.items():
+        c0 = grp[0]
+        if full_cover:
+            ins = [bytes(b for b in s[2][2:]) + bytes([r]) for s in c0.states for r in sorted(set(c0.alphabet) | {0})][:full_cover]
+            ins += (inputs_fn or cover_inputs)(c0, rng, per_case)
+        else:
+            ins = (inputs_fn or cover_inputs)(c0, rng, per_case)
+        proto = []
+        for inp in ins:
+            mode = rng.choice(script_modes) if scripts else "none"
+            proto.append(dict(input=inp, ops=make_script(rng, c0, mode, maxops),
+                              initsc=rng.randrange(len(c0.src["scs"])) if rng.random() < 0.4 else 0))
+        for c in grp:
+            jobs = []
+            for pj in proto:
+                job = dict(pj, sched=rng.choice(scheds) if scheds else rng.choice([[], [1], [1, 2], [3], [2, 1, 4], [64]]),
+                           bufsize=rng.choice(bufsizes),
+                           reset=dict(traces.reset_fields(c, c._ci + 1, strictread=strictread), cid=c.id))
+                if job_filter: job = job_filter(c, job)
+                if job: jobs.append(job)
+            work.append((c, jobs, os.path.join(wd, "t-%s.ndjson" % c.id)))
 
-    def one(x):
-        c, job, tf = x
-        return traces.run_job(c, job, tf)
     with cf.ThreadPoolExecutor(NCPU) as ex:
-        res = list(ex.map(one, jobs))
-    # concatenate into chunks, validate chunks in parallel
+        list(ex.map(lambda x: traces.run_jobs(x[0], x[1], x[2]), work))
+    # select what TLC has to look at
+    tovalidate = []     # (case, lines)
+    nexec = 0; nequal = 0
+    bycase = {c.id: (c, jobs, tf) for c, jobs, tf in work}
+    for key, grp in groups.items():
+        ref = None
+        for gi, c in enumerate(grp):
+            ex_ = traces.split_executions(bycase[c.id][2])
+            nexec += len(ex_)
+            if gi == 0 or strictread:
+                ref = [traces.projection(e) for e in ex_] if gi == 0 else ref
+                tovalidate += [(c, e) for e in ex_]
+                continue
+            for k, e in enumerate(ex_):
+                if ref is not None and k < len(ref) and traces.projection(e) == ref[k] and '"lost"' not in e[0]:
+                    nequal += 1
+                else:
+                    tovalidate.append((c, e))
     chunks = []
-    for i in range(0, len(jobs), chunk):
+    for i in range(0, len(tovalidate), chunk):
         cp = os.path.join(wd, "chunk-%d.ndjson" % (i // chunk))
         with open(cp, "w") as out:
-            for (c, job, tf) in jobs[i:i + chunk]:
-                if os.path.exists(tf):
-                    out.write(open(tf).read())
-        chunks.append((cp, jobs[i:i + chunk]))
-
-    def val(ch):
-        return traces.validate(ch[0], casefile)
-    with cf.ThreadPoolExecutor(max(1, min(NCPU // 2, len(chunks)))) as ex:
-        vres = list(ex.map(val, chunks))
-    nexec = 0; nev = 0
+            for c, e in tovalidate[i:i + chunk]:
+                out.write("".join(e))
+        chunks.append((cp, tovalidate[i:i + chunk]))
+    with cf.ThreadPoolExecutor(max(1, min(NCPU // 2, len(chunks) or 1))) as ex:
+        vres = list(ex.map(lambda ch: traces.validate(ch[0], casefile), chunks))
+    nacc = nequal; nev = 0; rejected_refs = set()
     for (cp, cj), (ok, r, n) in zip(chunks, vres):
         run.cov["states"] += r.distinct; run.cov["transitions"] += r.generated
         nev += n
         if ok:
-            nexec += len(cj); continue
+            nacc += len(cj); continue
         if r.error or r.timed_out:
-            # a model failure is reported as an error unless a second run repeats it as a rejection
             run.error("Trace_Scanner failed on %s: %s" % (cp, (r.error or "timeout")[-800:]))
             continue
         lines = open(cp).read().splitlines()
         stuck = min(r.depth, len(lines))          # 1-based index of the first unexplained event
-        start = max(i for i in range(stuck) if '"e":"Reset"' in lines[i][:14] or i == 0)
-        nexec += sum(1 for x in lines[:start] if '"e":"Reset"' in x[:14])
+        start = max([i for i in range(stuck) if lines[i].startswith('{"e":"Reset"')] or [0])
+        nacc += sum(1 for x in lines[:start] if x.startswith('{"e":"Reset"'))
         ctx = lines[start:stuck]
         hdr = json.loads(lines[start]) if '"Reset"' in lines[start] else {}
         cid = hdr.get("cid")
@@ -184,19 +231,41 @@ def trace_unit(run, cases, rng, per_case=12, tag="traces", scripts=True, bufsize
         ev = json.loads(lines[stuck - 1]) if stuck - 1 < len(lines) else {}
         kind = "trace:crash" if ev.get("e") == "Crash" else "trace:rejected"
         lf = [c.gen["l"]] if c else []
-        rp = os.path.join(wd, "rejected-%s.ndjson" % os.path.basename(cp)); open(rp, "w").write("\n".join(ctx) + "\n")
+        rp = os.path.join(wd, "rejected-%s" % os.path.basename(cp)); open(rp, "w").write("\n".join(ctx) + "\n")
         run.violation(kind,
                       "execution of %s (flex %s) is not a behaviour of the specification: event #%d %s is not explained (after %d accepted events)"
                       % (c.src.get("name") if c else cid, " ".join(scanner.flex_args(c.cfg)) if c else "?", stuck - start,
                          json.dumps(ev)[:300], stuck - start - 1),
                       dict(cfg=c.cfg if c else None, events=ctx[-12:], reset=hdr), lf + [rp, casefile])
-    run.cov["traces_validated_against_impl"] += nexec
-    if jobs and len(run.cov["samples"]) < 4:
-        c, job, tf = jobs[0]
+        # the rest of a rejected chunk is validated too (one rejection must not hide others)
+        rest = [(cc, e) for (cc, e) in cj][sum(1 for x in lines[:stuck] if x.startswith('{"e":"Reset"')):]
+        if rest:
+            cp2 = cp + ".rest"
+            with open(cp2, "w") as out:
+                for cc, e in rest: out.write("".join(e))
+            ok2, r2, n2 = traces.validate(cp2, casefile)
+            run.cov["states"] += r2.distinct; run.cov["transitions"] += r2.generated
+            if ok2: nacc += len(rest)
+            elif not (r2.error or r2.timed_out):
+                l2 = open(cp2).read().splitlines(); s2 = min(r2.depth, len(l2))
+                st2 = max([i for i in range(s2) if l2[i].startswith('{"e":"Reset"')] or [0])
+                nacc += sum(1 for x in l2[:st2] if x.startswith('{"e":"Reset"'))
+                h2 = json.loads(l2[st2]) if '"Reset"' in l2[st2] else {}
+                c2 = next((k for k in live if k.id == h2.get("cid")), None)
+                ev2 = json.loads(l2[s2 - 1]) if s2 - 1 < len(l2) else {}
+                rp2 = os.path.join(wd, "rejected2-%s" % os.path.basename(cp)); open(rp2, "w").write("\n".join(l2[st2:s2]) + "\n")
+                run.violation("trace:crash" if ev2.get("e") == "Crash" else "trace:rejected",
+                              "execution of %s (flex %s) is not a behaviour of the specification: event #%d %s is not explained"
+                              % (c2.src.get("name") if c2 else "?", " ".join(scanner.flex_args(c2.cfg)) if c2 else "?", s2 - st2, json.dumps(ev2)[:300]),
+                              dict(cfg=c2.cfg if c2 else None, events=l2[st2:s2][-12:], reset=h2), ([c2.gen["l"]] if c2 else []) + [rp2, casefile])
+    run.cov["traces_validated_against_impl"] += nacc
+    if work and len(run.cov["samples"]) < 4:
+        c, jobs, tf = work[0]
         try:
             run.sample(dict(kind="trace", rules_file_excerpt=open(c.gen["l"]).read().split("%%")[1].strip().splitlines()[:8],
-                            input=list(job["input"]), read_sizes=job["sched"], script=traces.ops_csv(job["ops"]),
+                            input=list(jobs[0]["input"]), read_sizes=jobs[0]["sched"], script=traces.ops_csv(jobs[0]["ops"]),
                             events=open(tf).read().splitlines()[:10]))
         except Exception:
             pass
-    run.unit(tag, executions=len(jobs), accepted=nexec, events=nev, scanners=len(live))
+    run.unit(tag, executions=nexec, accepted=nacc, accepted_by_equality_with_validated_execution=nequal,
+             validated_by_tlc=len(tovalidate), events=nev, scanners=len(live), rule_set_groups=len(groups))
